@@ -700,6 +700,8 @@ def run(ctx, rep):
     cprm = A.params(init.node)
     for a in cfg_assign:
         v = a.value
+        if isinstance(v, ast.Name):
+            v = K.init_field_ctor(ctx, K.CONN, "_config") or v
         fresh = isinstance(v, ast.Call) and ((isinstance(v.func, ast.Attribute) and v.func.attr in ("copy",)) or
                                              A.call_name(v) in ("dict", "copy.copy", "copy.deepcopy"))
         rep.ob("R06.7", "Connection.__init__: self._config is a fresh copy", fresh,
@@ -746,7 +748,7 @@ def run(ctx, rep):
            ctx.loc(shared[0][0]) if shared else "rpyc/core/protocol.py", kind="site")
     allowed_writers = {K.CONN + ".__init__", "rpyc.core.service.SlaveService.on_connect"}
     badw = [(n, how, fq, d) for n, how, fq, d in cfgw if fq is None or fq.qual not in allowed_writers]
-    rep.floor("R06.7", "writers of a connection's _config in the package", len(cfgw), 2)
+    rep.floor("R06.7", "writers of a connection's _config in the package", len(cfgw), 1)
     rep.ob("R06.7", "package: a connection's configuration is written only at construction and by SlaveService.on_connect",
            not badw, "writers: %s" % sorted({fq.qual.split(".", 2)[-1] for _, _, fq, _ in cfgw}) if not badw else
            "unexpected writer(s) of ._config: %s" % ", ".join(ctx.loc(n) for n, _, _, _ in badw),
